@@ -13,6 +13,9 @@ mod v_iface_frag {
     type Key = u16;
     /// reassembly buffer size of the build configuration (256 in KI4)
     const B: usize = crate::config::REASSEMBLY_BUFFER_SIZE;
+    /// index of the second reassembly slot (this file is spliced into every build configuration; the slot
+    /// harnesses run under KI4 only, where REASSEMBLY_BUFFER_COUNT = 2, and assert that)
+    const S1: usize = if crate::config::REASSEMBLY_BUFFER_COUNT > 1 { 1 } else { 0 };
 
     /// the fragment branch of `process_ipv4` (src/iface/interface/ipv4.rs): `None` = nothing delivered
     fn offer<'a>(
@@ -154,16 +157,16 @@ mod v_iface_frag {
         reasm_step::<24, 4, 4>();
     }
 
-    // @harness props=C12 cfg=KI4 tier=q to=900 mem=8 unwind=12 opts=nomem covers=3 funcs=PacketAssembler::set_total_size;PacketAssembler::add;PacketAssembler::assemble;PacketAssembler::is_complete;PacketAssembler::reset;Assembler::add;Assembler::peek_front bounds=1-induction_step:_datagram_of_any_length_<=_256;_assembler_in_any_state_of_0..=3_recorded_ranges_(API_prefix);_last_fragment_of_3_bytes_at_any_8-aligned_offset,_consistent_with_the_datagram
+    // @harness props=C12 cfg=KI4 tier=q to=900 mem=8 unwind=12 opts=nomem covers=3 funcs=PacketAssembler::set_total_size;PacketAssembler::add;PacketAssembler::assemble;PacketAssembler::is_complete;PacketAssembler::reset;Assembler::add;Assembler::peek_front bounds=1-induction_step:_datagram_of_any_length_<=_256;_assembler_in_any_state_of_0..=3_recorded_ranges_(API_prefix);_last_fragment_of_7_bytes_at_any_8-aligned_offset,_consistent_with_the_datagram
     #[kani::proof]
-    pub(crate) fn ipv4_reasm_step_3_n03() {
-        reasm_step::<3, 0, 3>();
+    pub(crate) fn ipv4_reasm_step_7_n03() {
+        reasm_step::<7, 0, 3>();
     }
 
-    // @harness props=C12 cfg=KI4 tier=q to=900 mem=8 unwind=12 opts=nomem covers=3 funcs=PacketAssembler::set_total_size;PacketAssembler::add;PacketAssembler::assemble;PacketAssembler::is_complete;PacketAssembler::reset;Assembler::add;Assembler::peek_front bounds=1-induction_step:_datagram_of_any_length_<=_256;_assembler_in_any_state_of_4_recorded_ranges_(assembler_full:_ASSEMBLER_MAX_SEGMENT_COUNT=4)_(API_prefix);_last_fragment_of_3_bytes_at_any_8-aligned_offset,_consistent_with_the_datagram
+    // @harness props=C12 cfg=KI4 tier=q to=900 mem=8 unwind=12 opts=nomem covers=3 funcs=PacketAssembler::set_total_size;PacketAssembler::add;PacketAssembler::assemble;PacketAssembler::is_complete;PacketAssembler::reset;Assembler::add;Assembler::peek_front bounds=1-induction_step:_datagram_of_any_length_<=_256;_assembler_in_any_state_of_4_recorded_ranges_(assembler_full:_ASSEMBLER_MAX_SEGMENT_COUNT=4)_(API_prefix);_last_fragment_of_7_bytes_at_any_8-aligned_offset,_consistent_with_the_datagram
     #[kani::proof]
-    pub(crate) fn ipv4_reasm_step_3_full() {
-        reasm_step::<3, 4, 4>();
+    pub(crate) fn ipv4_reasm_step_7_full() {
+        reasm_step::<7, 4, 4>();
     }
 
     // Liveness: the datagram g[0..t) lacks nothing but (part of) this fragment -- [0,a) and [b,t) are recorded,
@@ -373,7 +376,7 @@ mod v_iface_frag {
                         assert!(if is_a { ma != 3 } else { mb != 3 }, "prop:c12_reasm_delivers_when_gaps_trackable");
                     }
                 }
-                let used = set.assemblers[0].key.is_some() as usize + set.assemblers[1].key.is_some() as usize;
+                let used = set.assemblers[0].key.is_some() as usize + set.assemblers[S1].key.is_some() as usize;
                 assert!(used == (ma != 0) as usize + (mb != 0) as usize, "prop:c12_reasm_slot_held_exactly_while_incomplete");
             }};
         }
@@ -398,7 +401,7 @@ mod v_iface_frag {
 
     // ------------------------------------------------------------------ slots: keys, full set, expiry
     fn used(set: &PacketAssemblerSet<Key>, k: Key) -> usize {
-        (set.assemblers[0].key == Some(k)) as usize + (set.assemblers[1].key == Some(k)) as usize
+        (set.assemblers[0].key == Some(k)) as usize + (set.assemblers[S1].key == Some(k)) as usize
     }
     fn clean(a: &PacketAssembler<Key>) -> bool {
         a.total_size.is_none() && a.assembler.is_empty()
@@ -441,7 +444,7 @@ mod v_iface_frag {
         }
         assert!(used(&set, k1) == 1 && used(&set, k2) == 1, "prop:c12_slots_one_slot_per_key");
         let pre0 = (set.assemblers[0].key, set.assemblers[0].expires_at, set.assemblers[0].buffer[0], set.assemblers[0].assembler.peek_front());
-        let pre1 = (set.assemblers[1].key, set.assemblers[1].expires_at, set.assemblers[1].buffer[0], set.assemblers[1].assembler.peek_front());
+        let pre1 = (set.assemblers[S1].key, set.assemblers[S1].expires_at, set.assemblers[S1].buffer[0], set.assemblers[S1].assembler.peek_front());
         // third key
         let full = k1 != k2 && k3 != k1 && k3 != k2;
         {
@@ -461,14 +464,14 @@ mod v_iface_frag {
         }
         if full {
             let post0 = (set.assemblers[0].key, set.assemblers[0].expires_at, set.assemblers[0].buffer[0], set.assemblers[0].assembler.peek_front());
-            let post1 = (set.assemblers[1].key, set.assemblers[1].expires_at, set.assemblers[1].buffer[0], set.assemblers[1].assembler.peek_front());
+            let post1 = (set.assemblers[S1].key, set.assemblers[S1].expires_at, set.assemblers[S1].buffer[0], set.assemblers[S1].assembler.peek_front());
             assert!(pre0 == post0 && pre1 == post1, "prop:c12_slots_refusal_leaves_slots_untouched");
         }
         assert!(used(&set, k1) == 1 && used(&set, k2) == 1 && used(&set, k3) <= 1, "prop:c12_slots_one_slot_per_key");
         // the clock advances
         let t = Instant::from_micros(kani::any::<i64>());
         let b0 = (set.assemblers[0].key, set.assemblers[0].expires_at);
-        let b1 = (set.assemblers[1].key, set.assemblers[1].expires_at);
+        let b1 = (set.assemblers[S1].key, set.assemblers[S1].expires_at);
         set.remove_expired(t);
         let mut freed = 0;
         {
@@ -479,7 +482,7 @@ mod v_iface_frag {
             } else {
                 assert!(s0.key == b0.0 && s0.expires_at == b0.1, "prop:c12_slots_unexpired_slot_kept");
             }
-            let s1 = &set.assemblers[1];
+            let s1 = &set.assemblers[S1];
             if b1.0.is_some() && b1.1 < t {
                 assert!(s1.key.is_none() && clean(s1), "prop:c12_slots_expired_slot_freed_and_cleared");
                 freed += 1;
@@ -488,7 +491,7 @@ mod v_iface_frag {
             }
         }
         // a fourth key gets a slot exactly when one matches or is free
-        let room = set.assemblers[0].key.is_none() || set.assemblers[1].key.is_none() || used(&set, k4) == 1;
+        let room = set.assemblers[0].key.is_none() || set.assemblers[S1].key.is_none() || used(&set, k4) == 1;
         let was_there = used(&set, k4) == 1;
         let d = set.get(&k4, e4);
         assert!(d.is_ok() == room, "prop:c12_slots_free_or_matching_slot_is_handed_out");
@@ -601,29 +604,3 @@ mod v_iface_frag {
         assert!(r.is_some(), "prop:deliberately_false_single_fragment_completes_datagram");
     }
 }
-
-// Accessors used by harnesses living in other modules (iface_frag_tx.rs): only compiled under cfg(kani).
-#[allow(dead_code)]
-impl<K: Eq + Copy> PacketAssemblerSet<K> {
-    /// (in use, total_size, first hole, length of the first recorded range, expiry in ms) of slot i
-    pub(crate) fn verif_slot(&self, i: usize) -> (bool, Option<usize>, usize, usize, i64) {
-        let a = &self.assemblers[i];
-        let hole = a.assembler.verif_front_hole();
-        let mut len = 0;
-        let mut x = 0;
-        while x < 8 {
-            if a.assembler.verif_present(hole + x) {
-                len += 1;
-            }
-            x += 1;
-        }
-        if a.assembler.verif_present(hole + 8) {
-            len = 9;
-        }
-        (a.key.is_some(), a.total_size, hole, len, a.expires_at.total_millis())
-    }
-    pub(crate) fn verif_byte(&self, i: usize, at: usize) -> u8 {
-        self.assemblers[i].buffer[at]
-    }
-}
-
